@@ -242,13 +242,19 @@ Definition quiet_round (c : case) (q : nat) : bool :=
   && (negb (is_some (pj_sug before)) || existsb (fun a => match a with Begin CSug _ _ _ => true | _ => false end) acts)
   && forallb (fun n => existsb (fun a => match a with Begin CTrial k _ _ => Nat.eqb k n | _ => false end) acts) (trial_names before).
 
+Definition has_raise (c : case) : bool :=
+  existsb (fun ap => match fst ap with UserRaiseMax _ => true | _ => false end) (k_steps c).
+
+(* at rest with a finished environment an experiment with a budget carries its verdict *)
+Definition verdict_at_rest (c : case) : bool :=
+  let p := last_state c in
+  negb (env_done p) || match pj_exp p with Some e => negb (is_some (pe_max e)) || pe_completed e | None => true end.
+
+(* The property quantifies over environment events and faults, not over spec edits: the verdict clause judges the histories
+   in which maxTrialCount is never raised (for those with a raise it is the restart clause of C16, below). *)
 Definition quiescent_ok (c : case) : bool :=
   match k_quiet c with
-  | Some q =>
-      quiet_round c q
-      && (let p := last_state c in
-          negb (env_done p) ||
-          match pj_exp p with Some e => negb (is_some (pe_max e)) || pe_completed e | None => true end)
+  | Some q => quiet_round c q && (has_raise c || verdict_at_rest c)
   | None =>
       (* the harness drives every history with a budget to quiescence; failing to get there is a hot loop.
          Experiments without maxTrialCount legitimately run for ever while they have no verdict (the property speaks
@@ -315,7 +321,19 @@ Fixpoint sug_restart_walk (cf : cfg) (seen : bool) (prev : proj) (steps : list (
       && sug_restart_walk cf seen' p rest
   end.
 
+(* after a raise of maxTrialCount the experiment runs up to the new budget: at rest it carries a verdict again *)
+Definition restart_progress (c : case) : bool :=
+  match k_quiet c with Some _ => negb (has_raise c) || verdict_at_rest c | None => true end.
+
 Definition resume_ok (c : case) : bool :=
+  restart_progress c &&
+  all_steps (restart_step (k_cfg c)) (initial c) (k_steps c) &&
+  sug_restart_walk (k_cfg c) false (initial c) (k_steps c) &&
+  rpc_walk None (initial c) (k_steps c)
+  && match k_quiet c with Some _ => resume_final c (last_state c) && resume_final_failed c (last_state c) | None => true end.
+
+(* everything but the clause that the known finding F18 violates *)
+Definition resume_ok_modulo_f18 (c : case) : bool :=
   all_steps (restart_step (k_cfg c)) (initial c) (k_steps c) &&
   sug_restart_walk (k_cfg c) false (initial c) (k_steps c) &&
   rpc_walk None (initial c) (k_steps c)
@@ -323,6 +341,7 @@ Definition resume_ok (c : case) : bool :=
 
 (* everything but the clause that the known finding F14 violates *)
 Definition resume_ok_modulo_f14 (c : case) : bool :=
+  restart_progress c &&
   all_steps (restart_step (k_cfg c)) (initial c) (k_steps c) &&
   sug_restart_walk (k_cfg c) false (initial c) (k_steps c) &&
   rpc_walk None (initial c) (k_steps c)
